@@ -59,6 +59,8 @@ def gather(run, fams):
             jobs.append(lambda arg=arg: run.model_programs("MC_API", api_cfgs(run, arg), "api"))
         elif fam == "apifull":      # histories that start on a packet carrying every field, after a WriteTo / String
             jobs.append(lambda arg=arg: run.model_programs("MC_API", api_cfgs(run, arg, "full", ("write", "diag")), "apifull"))
+        elif fam == "apinew":       # histories on the constructor's packet after it was written / printed once
+            jobs.append(lambda arg=arg: run.model_programs("MC_API", api_cfgs(run, arg, "new", ("write", "diag") if run.tier == "thorough" else ("write",)), "apinew"))
         elif fam == "apidec":       # histories on the packet ReadPacket returned for the frame of that full packet
             jobs.append(lambda arg=arg: run.model_programs("MC_API", api_cfgs(run, arg, "decoded", ("none", "write")), "apidec"))
         else:
@@ -103,7 +105,7 @@ def xproc_trace(run, shards):
                 elif e.get("ev") == "WriteTo" and prog is not None and e.get("wkind") == "all":
                     base = prog.split("#")[0]
                     if (base, prog) not in first:
-                        first[(base, prog)] = e["accepted"]
+                        first[(base, prog)] = [b for part in e["offered"] for b in part]
     groups = {}
     for (base, prog), b in first.items():
         groups.setdefault(base, []).append(b)
@@ -130,7 +132,7 @@ REQUIRE = {   # vacuity guard: what a run of the check must have exercised at le
 }
 
 
-STD_READERS = ["bufio", "bufio16", "bytes.Reader", "bytes.Buffer", "strings.Reader", "limited", "rich"]
+STD_READERS = ["bufio", "witheof", "bufio16", "bytes.Reader", "onebyte", "bytes.Buffer", "strings.Reader", "limited", "rich", "witherr"]
 
 
 def reader_variants(run, progs, every):
@@ -157,6 +159,12 @@ def reader_variants(run, progs, every):
             plan = st.get("reader")
             if kind == "rich":
                 st.setdefault("reader", {})["rich"] = True
+                continue
+            if kind in ("witheof", "onebyte", "witherr"):    # the scripted transport itself: io.EOF (or the failure E) together with the
+                if not plan:                                 # last bytes, the whole stream at once or one byte at a time
+                    n = len(st.get("bytes", []))
+                    ones = [1] * n if n <= 300 else [1] * 8 + [n - 8]      # (every logged Read is two TLC steps: long frames get a short run)
+                    st["reader"] = {"chunks": ones if kind == "onebyte" else [], "fate": "err" if kind == "witherr" else "eof", "with": True}
                 continue
             kd = kind
             if not kd.startswith("bufio") and plan and plan.get("fate") == "err":
@@ -326,13 +334,20 @@ BUILD_RULE = ("one program per abstract packet of spec/Gen.tla built through con
               "New, setters, WriteTo, ReadPacket of the written bytes, String/Dump, repeated WriteTo; ")
 
 
+def half(run, fams, prog):
+    """Quick-tier thinning: a seed-dependent half of the programs of the given families (all of them in the thorough tier)."""
+    if run.tier == "thorough" or prog.get("fam") not in fams:
+        return True
+    return (zlib.crc32(json.dumps(prog["steps"][:6], sort_keys=True).encode()) + run.seed) % 2 == 0
+
+
 def c01(run):
     return check(run, "C01", {"C01"}, [("build", TYPE_PARTS), ("reuse", ONE_PART), ("api", 2), ("apifull", 2 if run.tier == "thorough" else 1)],
                  BUILD_RULE + "TLC replays the setters on the PacketAPI model and requires every accessor of the decoded packet "
                  "to equal the model and the second encoding to equal the first; the same round trip at the end of every setter history "
                  "of MC_API (all ordered pairs of calls from the constructor's packet; every call, thorough every pair, from a packet "
                  "that carries every field and was written or printed before)",
-                 ["D1: domain of C01 as InC01Domain in spec/PacketAPI.tla"])
+                 ["D1: domain of C01 as InC01Domain in spec/PacketAPI.tla"], keep=lambda pr: half(run, ("api",), pr))
 
 
 def c02(run):
@@ -341,7 +356,7 @@ def c02(run):
                  BUILD_RULE + "the bytes handed to the writer are read by the strict reference decoder (MQTTWire!StrictDecode) "
                  "and ObsOfWire of the result must equal the PacketAPI model state; also caller-kept values (reuse family), packets "
                  "next to decodes (own family) and seeded random histories with writes between the calls",
-                 assumptions=["D2: only packets in InC02Domain are judged", "absent property = zero value"])
+                 assumptions=["D2: only packets in InC02Domain are judged", "absent property = zero value"], keep=lambda pr: half(run, ("build",), pr))
 
 
 def c03(run):
@@ -428,12 +443,12 @@ def c09(run):
                  "lengths; the specification proves Verdict = reject for each (invariant Theorems2) and the trace specification "
                  "requires ReadPacket to return an error",
                  ["a frame is must-reject only when the first failure of the strict walk is one of the classes (a)-(d)"],
-                 keep=lambda p: p["meta"]["kind"] in ("cut", "undef", "bool", "rlfifth", "vbi5", "badsubid"), std_readers=10)
+                 keep=lambda p: p["meta"]["kind"] in ("cut", "undef", "bool", "rlfifth", "vbi5", "badsubid", "dupbad"), std_readers=10)
 
 
 def c10(run):
     return check(run, "C10", {"C10"}, [("wfault", TYPE_PARTS), ("build", TYPE_PARTS), ("reuse", ONE_PART), ("apifull", 2 if run.tier == "thorough" else 1),
-                                       ("apidec", 2 if run.tier == "thorough" else 1)],
+                                       ("apidec", 2 if run.tier == "thorough" else 1)] + ([("apinew", 2)] if run.tier == "thorough" else []),
                  "packets of the build family written to a writer that accepts everything, and small packets written to a "
                  "writer that accepts exactly k bytes then reports E for every k below the frame length; malformed but "
                  "constructible packets and Undefined; seeded random setter histories with WriteTo between the calls (a packet that grows "
@@ -441,7 +456,8 @@ def c10(run):
                  "or several Write calls x every writer that stops after K bytes; completed behaviours satisfy the predicate applied to "
                  "the recorded events)",
                  ["D7: writers obey io.Writer (an error whenever fewer bytes are accepted)"],
-                 histories=400 if run.tier == "quick" else 5000, models=[("MC_Write", MC_WRITE_CFG)], rich_writers=3,
+                 histories=400 if run.tier == "quick" else 5000, models=[("MC_Write", MC_WRITE_CFG)], rich_writers=4,
+                 keep=lambda pr: half(run, ("build",), pr),
                  extra_cov=(count_proof(run, "WriteIOCount", "every frame length, writer limit and splitting over Write calls")
                             if run.tier == "thorough" else None))
 
@@ -454,12 +470,12 @@ def c11(run):
                  "every read-only operation; a third of the programs is executed again in two other worker processes (fresh hash seeds) "
                  "and the first encodings are compared; the concurrency configurations of C13 in which some goroutine writes the packet (driver built "
                  "with -race): every concurrent encoding must equal the sequential one", [], xproc=0.34, conc_apart=True,
-                 keep=lambda pr: pr.get("fam") != "conc" or "WriteTo" in json.dumps(pr["steps"][-2:]))
+                 keep=lambda pr: (pr.get("fam") != "conc" or "WriteTo" in json.dumps(pr["steps"][-2:])) and half(run, ("build",), pr))
 
 
 def c12(run):
     depth = 3 if run.tier == "thorough" else 2
-    return check(run, "C12", {"C12"}, [("api", depth), ("apifull", depth - 1), ("apidec", depth - 1), ("reuse", ONE_PART)],
+    return check(run, "C12", {"C12"}, [("api", depth), ("apinew", 2), ("apifull", depth - 1), ("apidec", depth - 1), ("reuse", ONE_PART)],
                  "TLC explores PacketAPI (spec/MC_API.tla) per packet type: all histories of %d calls over the complete setter "
                  "alphabet with zero/non-zero/maximal arguments and both truth values; invariants FlagsInStep, LastWriteWins, "
                  "FrameCondition hold in the model; every history is executed and after every call all accessors must equal "
